@@ -309,6 +309,10 @@ def examine_output_dir_to_determine_current_iteration(output_dir, batch_size):
 
         plate_dirs = sorted(plate_dirs, key=dir_sort_key)
 
+        if not plate_dirs:
+            # iteration directory created but no step started in it yet
+            continue
+
         current_plate_idx = 0
 
         for idx, plate_dir in enumerate(plate_dirs):
